@@ -33,7 +33,7 @@ CLAIMED.update({
    technique='contract-based deductive verification: AST symbolic executor over the real functions with sidecar contracts (Boogie-style heap, loop invariants, calls by contract), typed quantifier instantiation -> QF VCs (z3); bounded-scope refutation + native replay',
    level='proof',
    text='Well-formedness (indices in range, single producer, execution order, graph outputs in range, inserted op placed after the producer and before the first consumer) is proved as a postcondition of the real insert_quant / insert_dequant / add_op_code / add_new_activation_tensor for every graph size, operand count and consumer list (ghost producer map; all loops by invariant). '
-        'The performer bookkeeping (_create_op_id_map, _update_op_id_map, _apply_single_transformation, _update_instructions), the graph facts every instruction is built from (_tensor_info_generator: one record per tensor, producer = first operator that outputs it, consumers = marker first then every reader once, ascending), model-wide tensor-name uniqueness (_check_tensor_names_are_unique) and uniqueness of inserted names (get_unique_tensor_name) are under contract as well. The vertical optimisation of the instruction generator (_apply_vertical_optimization: which instruction(s) replace each consumer rule, producer rule kept iff it still has consumers, list.remove never raises) and _produce_transformation_for_vertical_opt (one instruction per consumer group, every member named once, for an arbitrary enumeration of the group set) are under contract, and so is the COMPOSITION _quant_params_to_transformation_insts (modular, callees by contract: layout of the instruction list = producer rules but the last ++ vertical result ++ remaining consumer instructions, every callee called with the arguments and under the whole precondition its contract states, validity check on the returned record; 74 obligations); its two callees without a functional contract (_group_consumer_transformations, the second _produce_* builder) have their frames discharged by the may-mutate analysis and their return value by an AST pattern; what they COMPUTE (grouping, laminarity) is covered only by labelled bounded stand-ins.',
+        'The performer bookkeeping (_create_op_id_map, _update_op_id_map, _apply_single_transformation, _update_instructions), the graph facts every instruction is built from (_tensor_info_generator: one record per tensor, producer = first operator that outputs it, consumers = marker first then every reader once, ascending), model-wide tensor-name uniqueness (_check_tensor_names_are_unique) uniqueness of inserted names (get_unique_tensor_name) and the signature remapping (_remap_signature_outputs: signature entries keep naming existing tensors) are under contract as well. The vertical optimisation of the instruction generator (_apply_vertical_optimization: which instruction(s) replace each consumer rule, producer rule kept iff it still has consumers, list.remove never raises) and _produce_transformation_for_vertical_opt (one instruction per consumer group, every member named once, for an arbitrary enumeration of the group set) are under contract, and so is the COMPOSITION _quant_params_to_transformation_insts (modular, callees by contract: layout of the instruction list = producer rules but the last ++ vertical result ++ remaining consumer instructions, every callee called with the arguments and under the whole precondition its contract states, validity check on the returned record; 74 obligations); its two callees without a functional contract (_group_consumer_transformations, the second _produce_* builder) have their frames discharged by the may-mutate analysis and their return value by an AST pattern; what they COMPUTE (grouping, laminarity) is covered only by labelled bounded stand-ins.',
    note='Unchecked: LiteRT allocate/invoke (external runtime); flatbuffer serializer fidelity; object-API classes modelled as attribute bags; numpy int32 index arrays as int lists. _apply_transformations / transform_graph are dataflow patterns on the real AST. Known finding: LiteRT aborts the process for a 16-bit ADD with a degenerate calibrated output range (replayed in a child process).',
    design='§4 C01'),
  'C11': dict(
@@ -94,7 +94,7 @@ CLAIMED.update({
    technique='contract-based verification of totality: census of every raise site (and list.remove) on the call trees of load/calibrate/quantize from the real ASTs (call graph of vlib/effects.py), each site discharged as unreachable under the shipped-recipe precondition by call-graph gates + exhaustive native evaluation of the real guards over the finite (recipe rule x operator x tensor role) space, pyvc/z3 for the dtype tables, or a stated precondition',
    level='proof',
    text='58 raise sites on 164 functions; every site that can be reached only through recipe loading / resolution, registry look-ups, the mode table, dtype tables or operator-signature guards is shown unreachable for the shipped recipes (enumerated from the recipes directory and recipe.py on every run); a new raise site, or a site that loses its proof, fails a named obligation. The one genuinely reachable site (buffer-sharing rejection of one tensor whose consumers need different parameters) is a listed known finding with a class predicate; a second one (list.remove in the requantize branch) was repaired.',
-   note='Pre8 = shipped recipe unchanged, converter normal form (one buffer per tensor, unique names, float32), single-subgraph models; 9 sites hold by these preconditions (guard text re-matched every run). 5 numeric-kernel / validity sites are not obligations (unreached in 50,000 bounded pipeline runs, listed). Implicit raises other than list.remove only through the bounded public-API stand-in. The class-exclusion argument for the known finding is bounded in the number of consumers.',
+   note='Pre8 = shipped recipe unchanged, converter normal form (one buffer per tensor, unique names, float32), single-subgraph models; 9 sites hold by these preconditions (guard text re-matched every run). 5 numeric-kernel / validity sites are not obligations (unreached in 50,000 bounded pipeline runs, listed). Implicit raises other than list.remove only through the bounded public-API stand-in. The class-exclusion argument for the known finding is bounded in the number of consumers. History dependence (one Quantizer re-used for several shipped recipes) only through a bounded stand-in: every ordered pair of shipped recipe files x 3 models, second run vs a fresh Quantizer.',
    design='§4 C08'),
  'C09': dict(
    technique='contract-based deductive verification: AST symbolic executor (pyvc) over the real Calibrator code (whole calibrate loop with callee contracts, _update_qsvs, load_model_qsvs, _initialize_model_qsvs); CPython-executed symbolic arrays for the moving average and min/max collection; spec-level induction lemmas for fold/resume',
